@@ -35,6 +35,9 @@ int_t VH_PIVOTL(const int_t pnum, const int_t jcol, const VH_REAL u, yes_no_t *u
     int_t isub, icol, k, itemp, pivptr = -1, r, i;
     VH_REAL temp;
     ++vh_pivot_calls;
+#ifdef VH_PIVOT_YIELD
+    VH_PIVOT_YIELD(pnum, jcol);
+#endif
     if (!vh_S_ready) { /* column j of A*Pc is original column c with perm_c[c]==j; the library's
                           inv_perm_c[] is indexed the other way round, so search it */
         int j, c;
